@@ -41,6 +41,16 @@ def _lexa(deadline, rng, tier):
     return witness_lexa.search(deadline, rng)
 
 
+def _lexd(deadline, rng, tier):
+    from . import witness_lexd
+    return witness_lexd.search(deadline, rng)
+
+
+def _lexd_invalid(deadline, rng, tier):
+    from . import witness_lexd
+    return witness_lexd.search(deadline, rng, only_invalid=True)
+
+
 def _lexa_crlf(deadline, rng, tier):
     # sub-case with its own obligation: the same token sequences with CRLF line ends
     from . import witness_lexa
@@ -111,9 +121,13 @@ SUITES = {
             ('alpha_lexer_spans_crlf', _lexa_crlf, 'the trusted model of str::split_inclusive / strip_suffix on which the proved line offsets rest',
              'as C09.alpha_lexer_tokens with every line end written CRLF')],
     'C14': [('alpha_lexer_tokens', _lexa, 'agreement of the two lexers (each is verified against its own spec)', 'as C09.alpha_lexer_tokens'),
+            ('delta_lexer_tokens_and_agreement', _lexd, 'classification of every lexeme by the second-generation lexer; agreement of the two lexers',
+             'the token sequences of C09.alpha_lexer_tokens through the second-generation lexer (kind, value type, payload by construction); 33 inputs with an invalid lexeme must be rejected by both lexers'),
             ('alpha_lexer_tokens_crlf', _lexa_crlf, 'the trusted model of str::split_inclusive / strip_suffix', 'as C09.alpha_lexer_tokens with every line end written CRLF')],
     'C15': [('delta_front_end_crash_search', _delta_crash, 'XML dumps, recursion depth',
              'fixed seeds, boundary runs of every token (127..1000 repeats), inputs at the token limit, repository samples, token soup of length <= 4 (thorough: <= 6)'),
+            ('invalid_lexemes_rejected', _lexd_invalid, 'which bytes and escapes the lexer accepts inside literals',
+             '33 inputs with one invalid lexeme (control characters in literals and between tokens, bad escapes, unclosed quotes, bad digits and suffixes, stray symbols): rejected by both lexers'),
             ('deep_nesting', _depth, 'recursion depth of the parser (unbounded stack is an assumption of the proof); the XML printer',
              '16 shapes of valid modules (nested expressions, blocks, ifs, literals, calls, types; long lists and chains) with 3000 levels/items, through (lex, parse, header) and through the XML dumps')],
     'C17': [('header_xml', _header, 'refs_ok (no reference crosses a zone) on the parser side; XML dump',
